@@ -24,7 +24,8 @@ META = {
              "or had finished"),
     "abstract_measure": "distinct (|waiting|,|ready|,|running|,|cache|) tuples",
     "gates": {"quick": {"task_raises": 5000, "worker_crash": 100, "interrupt": 100,
-                        "submit_fails": 100, "dependents_present": 1000},
+                        "submit_fails": 100, "dependents_present": 1000,
+                        "rerun_exceptions_locally": 1000},
               "thorough": {"task_raises": 5000}},
     "anchors": ["dask/local.py", "dask/threaded.py", "dask/multiprocessing.py"],
     "real": c01.META["real"] + ["dask.multiprocessing.pack_exception/remote_exception/reraise",
